@@ -226,13 +226,13 @@ CHECKS = {
             'exceptions (history_refines, history_errors, via addNode/addDep/removeDep/removeNode_refines and the '
             'representation invariant GInv); every RList operation preserves the index invariant (rlist_*_inv, '
             'rlist_getIndex_spec); dependencies() reads the abstraction (dependencies_spec); multi_history_refines: the '
-            'same for histories over any number of graphs with copies, in-place merges and sums (copy_refines, '
-            'merge_refines, items_spec), which also gives the independence of copies and derived graphs (the '
+            'same for histories over any number of graphs with copies, in-place merges, sums and inversions (copy_refines, '
+            'merge_refines, items_spec, invert_refines: same nodes, exactly the reversed edges), which also gives the independence of copies and derived graphs (the '
             'specification of a graph only changes with its own calls). topo_history: on every such graph the '
             'topological sort returns exactly when the mathematical graph is acyclic, what it returns lists every node '
             'once after all its dependencies (topologicalSort_sound, by the DFS invariant visit_sound), and on a cycle '
             'it fails with the cycle error and nothing else (topologicalSort_total, visit_total: the recursion budget '
-            'size+1 is never exhausted). invert, graft, flatten, '
+            'size+1 is never exhausted). graft, flatten, '
             'transitive reduction/closure, dependees, initial/terminal, <=, == are in the executable model and checked '
             'against DepGraph and against the set-level oracle on every run, but their theorems are not proved yet.',
             'Trusted: Lean kernel + standard axioms; correspondence sampled (exhaustive <= 4 nodes in thorough); node '
